@@ -72,6 +72,8 @@ func init() {
 	for name, fn := range builtin {
 		RegisterXTest(name, fn)
 	}
+
+	functions.RegisterXWork("has_pattern", functions.TextAndRegexWork)
 }
 
 // RegisterXTest registers a new router test (and Excellent function)
